@@ -27,5 +27,10 @@ theorem dispatch_probes :
 example : (Probes.slice Gen.CSI_PROBES [Gen.SM, Gen.RM]).length ≥ 20 := by
   decide +kernel
 
+/-- the seven mode numbers, as regenerated from modes.rs -/
+theorem mode_numbers :
+    LNM = 20 ∧ IRM = 4 ∧ DECTCEM = 25 * 32 ∧ DECSCNM = 5 * 32 ∧ DECOM = 6 * 32 ∧ DECAWM = 7 * 32 ∧
+    DECCOLM = 3 * 32 := by decide
+
 end C12
 end Memterm
